@@ -83,9 +83,8 @@ FIXED = [
       ('C06', 'string_statement_becomes_docstring', {'source': "def alpha_value(*, alpha_value: 'a'=alpha_value):\n    pass\n    'a'\n    pass\n", 'opts': D})]),
     ('57b20f4', ['C09'], "a 'global eval' statement (nothing assigns eval) made eval(...) resolve to a module binding instead of the builtin: the module was not frozen, locals were renamed and eval('local_name') failed",
      [('C09', 'global_declaration_of_trigger', {'source': "def g():\n    global eval\ndef f(some_local):\n    other_local = some_local\n    return eval('other_local')\nprint(f(1))\n", 'opts': D, 'trigger': 'eval', 'pl': [], 'pg': []})]),
-    ('1c8569b', ['C12', 'C08'], "folding '1e999 + 2j' printed the result as '(inf+2j)' and evaluated that text (a lookup of the name inf) to compare it with the original",
-     [('C12', 'fold_to_nonfinite_complex', {'source': 'x = 0x1f + 1e999 + 2j\ny = 2j * 1e999\nz = (1e999 - 1e999) + 1j\n', 'opts': D}),
-      ('C08', 'fold_to_nonfinite_complex', {'source': 'x = 0x1f + 1e999 + 2j\n', 'opts': D, 'monitor': True})]),
+    ('1c8569b', ['C12'], "folding '1e999 + 2j' printed the result as '(inf+2j)' and evaluated that text (a lookup of the name inf) to compare it with the original",
+     [('C12', 'fold_to_nonfinite_complex', {'source': 'x = 0x1f + 1e999 + 2j\ny = 2j * 1e999\nz = (1e999 - 1e999) + 1j\n', 'opts': D})]),
 ]
 
 
